@@ -456,8 +456,12 @@ def run(tier, replay=None):
     for o in res:
         if o.get("kind") == "harness-panic":
             raise vlib.ToolError("harness panic in scenario %s: %s" % (o.get("label"), o.get("msg")))
+    if summ.get("worker_wedged"):
+        # P_C14_Progress at the scale of the worker: nothing moves any more, on any connection
+        rep.violation("worker-wedged", "%s (%d connections could not be judged)" % (summ["worker_wedged"], summ["inconclusive"]), summ)
     incon = summ["inconclusive"] + len([o for o in res if o.get("kind") == "note"])
-    if summ["runs"] == 0 or incon * 5 > summ["runs"]:
+    # (a dead or wedged worker explains the connections that could not be judged: a violation, never a tool error)
+    if not summ.get("worker_wedged") and not summ.get("worker_panic") and (summ["runs"] == 0 or incon * 5 > summ["runs"]):
         raise vlib.ToolError("too many inconclusive connections (%d of %d): machine overloaded or the worker is wedged" % (incon, summ["runs"]))
 
     total_acc = 0
